@@ -1,3 +1,4 @@
+import F3.Proofs.SkelTieChainX
 import F3.Proofs.ChainXWanted
 import F3.Gen.ChainX
 /-!
@@ -394,4 +395,20 @@ example : F3.Gen.ChainX.validatePubSubMessage true false 1000 9 1000 6 true fals
     F3.Gen.ChainX.validatePubSubMessage true false 1000 6 989 6 true false 10 3 = 2 ∧
     F3.Gen.ChainX.validatePubSubMessage true false 1000 (2 ^ 64 - 1) 1000 (2 ^ 64 - 2) true false 10 3 = 2 := by decide
 
+end F3.Props.C18
+
+namespace F3.Props.C18
+section Skeletons
+
+/-- **The Go functions this property's models mirror still have the statement structure the models were written
+against**: each regenerated skeleton (pre-order list of statement kinds, `tools/go2lean/skel.go`) equals the pinned
+expectation of `F3/Proofs/SkelTie*.lean`. An added early return, cap, loop or dropped branch in one of these functions
+breaks this obligation even when no regenerated *expression* changes. -/
+theorem code_structure_as_modelled :
+    F3.Gen.SkelChainX.skelGetChainByInstance = F3.SkelTie.SkelChainX.skelGetChainByInstanceExpected ∧
+    F3.Gen.SkelChainX.skelGetChainsWantedAt = F3.SkelTie.SkelChainX.skelGetChainsWantedAtExpected ∧
+    F3.Gen.SkelChainX.skelCacheAsDiscovered = F3.SkelTie.SkelChainX.skelCacheAsDiscoveredExpected :=
+  ⟨F3.SkelTie.SkelChainX.skelGetChainByInstance_expected, F3.SkelTie.SkelChainX.skelGetChainsWantedAt_expected, F3.SkelTie.SkelChainX.skelCacheAsDiscovered_expected⟩
+
+end Skeletons
 end F3.Props.C18
